@@ -226,6 +226,17 @@ func (c *Ctx) RuleDateFieldStores(pkg *ssa.Package) {
 						for _, in2 := range b2.Instrs {
 							if call, ok := in2.(*ssa.Call); ok {
 								if callee := c.StaticCallee(&call.Call); callee != nil {
+									// the construction that is compared back is the one of the decoded date: year, month and day
+									// all come from the data (New(2000, month, day) says nothing about 29 February of the decoded year)
+									allDecoded := len(call.Call.Args) >= 3
+									for ai := 0; allDecoded && ai < 3; ai++ {
+										if _, isK := call.Call.Args[ai].(*ssa.Const); isK {
+											allDecoded = false
+										}
+									}
+									if !allDecoded {
+										continue
+									}
 									for ai := range call.Call.Args {
 										if callee.String() == "time.Date" || c.normalises(callee, ai, 0) {
 											cons = append(cons, call)
